@@ -2,6 +2,8 @@
 # Coverage-guided campaigns (libFuzzer through cargo-fuzz, nightly toolchain, offline).
 #   tools/fuzz.sh sections <runs> [seed]        byte-level C01 target, corpus of well-formed section sets
 #   tools/fuzz.sh choices <ID> <runs> [seed]    choice-string target for one property (all its oracles)
+# A campaign ends after <runs> executions or after VERIF_FUZZ_MAX_SECS (default 900) seconds, whichever comes first
+# (properties whose cases are heavy run a few hundred executions per second); ending on the time cap is not a failure.
 # Exit 0: no crash in the explored inputs; exit 1 + VIOLATION line: a crash artifact was saved; exit 2: build trouble.
 set -u
 HERE="$(cd "$(dirname "$0")/.." && pwd)"
@@ -37,7 +39,7 @@ PY
 fi
 art="$work/artifacts-$target-$prop/"; mkdir -p "$art"
 [ "$seed" = 0 ] && seed=1
-cargo +nightly fuzz run --fuzz-dir "$HERE/fuzz" "$target" "$corpus" -- -runs="$runs" -seed="$seed" -max_len="$maxlen" -len_control=0 -timeout=60 -rss_limit_mb=8192 -artifact_prefix="$art" -print_final_stats=1 >"$work/run-$target-$prop.log" 2>&1
+cargo +nightly fuzz run --fuzz-dir "$HERE/fuzz" "$target" "$corpus" -- -runs="$runs" -max_total_time="${VERIF_FUZZ_MAX_SECS:-900}" -seed="$seed" -max_len="$maxlen" -len_control=0 -timeout=60 -rss_limit_mb=8192 -artifact_prefix="$art" -print_final_stats=1 >"$work/run-$target-$prop.log" 2>&1
 rc=$?
 grep -E "stat::number_of_executed_units|stat::new_units_added|cov:" "$work/run-$target-$prop.log" | tail -3
 if [ $rc -ne 0 ]; then
